@@ -16,7 +16,6 @@ from functools import reduce
 from operator import mul
 from itertools import combinations
 from itertools import product
-from inspect import isgenerator
 
 from cnfgen.formula.basecnf import BaseCNF
 
@@ -71,8 +70,8 @@ class CNFLinear(BaseCNF):
         >>> list(C)
         [[1, 2, -3], [1, -2, 3], [-1, 2, 3], [-1, -2, -3]]
         """
-        if isgenerator(lits):
-            lits = list(lits)
+        # (any iterable: it is scanned more than once)
+        lits = list(lits)
         if check:
             self._check_and_update(lits)
             # plain integers (e.g. `True` is the literal 1)
@@ -134,8 +133,8 @@ class CNFLinear(BaseCNF):
             raise ValueError('Invalid operator, only {} allowed'.
                              format(", ".join(operators)))
 
-        if isgenerator(lits):
-            lits = list(lits)
+        # (any iterable: it is scanned more than once)
+        lits = list(lits)
 
         if check:
             self._check_and_update(lits)
@@ -157,9 +156,6 @@ class CNFLinear(BaseCNF):
                 for i in flips:
                     lits[i] *= -1
             return
-
-        if isgenerator(lits) and op != '<=':
-            lits = list(lits)
 
         # We reduce to the case of >=
         if op == "==":
@@ -215,8 +211,8 @@ class CNFLinear(BaseCNF):
         check : bool
             check that the literals are valid and update the variable count
         """
-        if isgenerator(lits):
-            lits = list(lits)
+        # (any iterable: it is scanned more than once)
+        lits = list(lits)
         threshold = ((len(lits) + 1) // 2)
         return self.add_linear(lits, '>=', threshold, check=check)
 
@@ -230,8 +226,8 @@ class CNFLinear(BaseCNF):
         check : bool
             check that the literals are valid and update the variable count
         """
-        if isgenerator(lits):
-            lits = list(lits)
+        # (any iterable: it is scanned more than once)
+        lits = list(lits)
         threshold = len(lits) // 2
         return self.add_linear(lits, '<=', threshold, check=check)
 
@@ -245,8 +241,8 @@ class CNFLinear(BaseCNF):
         check : bool
             check that the literals are valid and update the variable count
         """
-        if isgenerator(lits):
-            lits = list(lits)
+        # (any iterable: it is scanned more than once)
+        lits = list(lits)
         threshold = len(lits)//2 + 1
         return self.add_linear(lits, '>=', threshold, check=check)
 
@@ -260,7 +256,7 @@ class CNFLinear(BaseCNF):
         check : bool
             check that the literals are valid and update the variable count
         """
-        if isgenerator(lits):
-            lits = list(lits)
+        # (any iterable: it is scanned more than once)
+        lits = list(lits)
         threshold = (len(lits) - 1) // 2
         return self.add_linear(lits, '<=', threshold, check=check)
